@@ -156,8 +156,11 @@ Definition unsrv (s : server) : string * Z := (s_url s, s_w s).
 Definition sz_eqb (a b : string * Z) : bool := String.eqb (fst a) (fst b) && (snd a =? snd b).
 
 Definition occ (x : string * Z) (l : list (string * Z)) : nat := List.length (filter (sz_eqb x) l).
+(** equal as multisets: every element of either list occurs equally often in both *)
 Definition perm_eqb (l1 l2 : list (string * Z)) : bool :=
-  Nat.eqb (List.length l1) (List.length l2) && forallb (fun x => Nat.eqb (occ x l1) (occ x l2)) l1.
+  Nat.eqb (List.length l1) (List.length l2) &&
+  forallb (fun x => Nat.eqb (occ x l1) (occ x l2)) l1 &&
+  forallb (fun x => Nat.eqb (occ x l1) (occ x l2)) l2.
 
 Definition spec_of (c : pool_case) : pool_spec :=
   {| ps_policy := p_policy c; ps_static := map srv (p_static c); ps_service := p_svc c; ps_tags := p_tags c |}.
@@ -229,6 +232,21 @@ Fixpoint segments (static : list server) (tags : list string) (d : list server)
       end
   end.
 
+(** the observed selections of a history, each with the list that is current at that selection
+    (the list declared by the last discovery report before it, initially the static list) *)
+Fixpoint req_view (static : list server) (tags : list string) (d : list server)
+         (ops : list pop) (trs : list (Z * string * string))
+  : list (list server * string * (Z * string * string)) :=
+  match ops with
+  | [] => []
+  | OUse insts _ :: t => req_view static tags (pool_list static (tagged tags insts)) t trs
+  | OReq _ _ key _ _ _ _ :: t =>
+      match trs with
+      | [] => [(d, key, (-4, ""%string, ""%string))]
+      | x :: trs' => (d, key, x) :: req_view static tags d t trs'
+      end
+  end.
+
 Definition prop_pool (p : policy) (static : list server) (tags : list string) (ops : list pop)
            (trs : list (Z * string * string)) : bool :=
   forallb (fun '(d, picks) => prop_sel p (weights d) 0 picks) (segments static tags static [] ops trs).
@@ -296,17 +314,39 @@ Definition check_rrc (c : rrc_case) : result :=
 
 Definition explain_rrc (c : rrc_case) := model_rrc c.
 
-(** ** group swap: selections concurrent with list replacement.  The harness counts the
-    choices that belong to no list that was current during the call; the model
-    ([C04_replace_choice_in_loaded_list]) says there is none. *)
-Record swap_case := { w_expected : Z; w_total : Z; w_bad : Z; w_panics : Z; w_lists : Z }.
+(** ** group swap: selections concurrent with list replacement.
+    [w_urls] = the URL list of installation j (0 = the initial list), from the INPUT;
+    [w_hist] = the observed selections aggregated as (lo, hi, chosen URL or "" for no server, count):
+    lo = the last installation that had completed when the call began, hi = the last installation
+    that had started when it returned (stamped by the harness with one atomic counter each).
+    The membership decision is taken here: the choice must belong to an installation j in [lo, hi]
+    ("the old or the new list"); no server only if such a list is empty. *)
+Record swap_case := { w_expected : Z; w_total : Z; w_bad : Z; w_panics : Z; w_lists : Z;
+                      w_urls : list (list string); w_hist : list (Z * Z * string * Z) }.
+
+Definition member_or_empty (u : string) (l : list string) : bool :=
+  if String.eqb u "" then match l with [] => true | _ => false end else str_in u l.
+
+Definition in_window (urls : list (list string)) (lo hi : Z) (u : string) : bool :=
+  existsb (fun '(j, l) => (lo <=? j) && (j <=? hi) && member_or_empty u l)
+          (combine (zseq 0 (List.length urls)) urls).
+
+Definition hist_ok (urls : list (list string)) (hist : list (Z * Z * string * Z)) : bool :=
+  forallb (fun '(lo, hi, u, n) => (n <=? 0) || in_window urls lo hi u) hist.
+
+Definition hist_total (hist : list (Z * Z * string * Z)) : Z := fold_right (fun '(_, _, _, n) a => n + a) 0 hist.
+
+Definition prop_swap (c : swap_case) : bool :=
+  (w_total c =? w_expected c) && (w_bad c =? 0) && (w_panics c =? 0) &&
+  hist_ok (w_urls c) (w_hist c) && (hist_total (w_hist c) =? w_total c) &&
+  forallb (fun '(_, _, _, n) => 0 <=? n) (w_hist c).
 
 Definition check_swap (c : swap_case) : result :=
-  let ok := (w_total c =? w_expected c) && (w_bad c =? 0) && (w_panics c =? 0) in
+  let ok := prop_swap c in
   let many := 4 <? w_lists c in let big := 10000 <? w_total c in
   (ok, ok, if 1 <? w_lists c then (1 + bN many 1 + bN big 2)%N else 0%N, 0%N).
 
-Definition explain_swap (c : swap_case) := (w_expected c, 0, 0).
+Definition explain_swap (c : swap_case) := (w_expected c, hist_ok (w_urls c) (w_hist c), hist_total (w_hist c)).
 
 (** ** group watch: the real watchServers driven by a registry double.
     [t_reports] = the successful listing answers of the registry (what service discovery
